@@ -2,10 +2,11 @@
 # usage: seed_matrix.sh <outfile> <seed> <PROP> [check args] ; ...   (reads lines from stdin: "seedpath PROP args")
 # Runs each seed in a scratch worktree (/tmp/seedrepo) so that /repo stays untouched.
 out=$1
-W=/tmp/seedrepo
+W=${SEEDW:-/tmp/seedrepo}
+EV=${W}_ev; RP=${W}_rep
 git -C /repo worktree remove --force $W 2>/dev/null
 git -C /repo worktree add -q --detach $W HEAD
-mkdir -p /tmp/seed_ev /tmp/seed_rep
+mkdir -p $EV $RP
 while read seed prop args; do
   [ -z "$seed" ] && continue
   patch=/verif/seeded_pending/$seed/patch.diff
@@ -13,7 +14,7 @@ while read seed prop args; do
   if git apply --check "$patch" 2>/dev/null; then git apply "$patch";
   elif git apply --3way "$patch" 2>/dev/null && [ -z "$(git diff --name-only --diff-filter=U)" ]; then git reset -q;
   else echo "== $seed $prop: PATCH DOES NOT APPLY" >> $out; git checkout -q -- .; continue; fi
-  r=$(cd /verif && VERIF_REPO=$W VERIF_EVIDENCE_DIR=/tmp/seed_ev VERIF_REPLAY_DIR=/tmp/seed_rep VERIF_JOBS=6 timeout 1500 ./check.py $prop $args 2>/dev/null | grep -E "^(VIOLATION|SUMMARY|INCONCLUSIVE)" | cut -c1-230)
+  r=$(cd /verif && VERIF_REPO=$W VERIF_EVIDENCE_DIR=$EV VERIF_REPLAY_DIR=$RP VERIF_JOBS=${SEEDJOBS:-6} timeout 1500 ./check.py $prop $args 2>/dev/null | grep -E "^(VIOLATION|SUMMARY|INCONCLUSIVE)" | cut -c1-230)
   echo "== $seed $prop $args" >> $out; echo "$r" >> $out
 done
 cd /; git -C /repo worktree remove --force $W
